@@ -57,4 +57,6 @@ def collect_e5(ctx: Ctx, prefix: str = "e5report") -> dict:
             out["paths_outside"][k] = out["paths_outside"].get(k, 0) + v
         out["programs"] += r["programs"]
         out["accepted"] += r["accepted"]
+        if r.get("not_lowered"):
+            out.setdefault("not_lowered", []).extend(r["not_lowered"])
     return out
